@@ -1,4 +1,4 @@
-CONSTANTS MaxMain = 3 MaxSub1 = 2 MaxSub2 = 1 Mode = "fixed"
+CONSTANTS MaxMain = 3 MaxSub1 = 1 MaxSub2 = 1 Mode = "fixed"
 INIT Init
 NEXT Next
 CHECK_DEADLOCK FALSE
